@@ -1,3 +1,4 @@
+pub mod c01;
 pub mod c02;
 pub mod c03;
 pub mod c04;
@@ -16,6 +17,7 @@ use crate::drv::{Ctx, Variant};
 
 pub fn variants(prop: &str) -> Vec<&'static Variant> {
     match prop {
+        "C01" => c01::variants(),
         "C02" => c02::variants(),
         "C03" => c03::variants(),
         "C04" => c04::variants(),
@@ -34,6 +36,7 @@ pub fn variants(prop: &str) -> Vec<&'static Variant> {
 
 pub fn run(prop: &str, ctx: &Ctx) -> Option<i32> {
     Some(match prop {
+        "C01" => c01::run(ctx),
         "C02" => c02::run(ctx),
         "C03" => c03::run(ctx),
         "C04" => c04::run(ctx),
